@@ -161,16 +161,13 @@ func TestFoundation(t *testing.T) {
 	loadJob(t, &job)
 	mapLines(t, readLines(t, job.Found), job.Out, func(_ int, line []byte) any {
 		var f struct {
-			Typ, Addr, Net string
-			Port, Comp     int
+			Typ, Addr, Net, TT string
+			Port, Comp         int
 		}
 		if err := json.Unmarshal(line, &f); err != nil {
 			panic(err)
 		}
-		tt := ""
-		if f.Net == "tcp" {
-			tt = "passive"
-		}
+		tt := f.TT // "" on tcp: a TCP candidate without a direction
 		c, err := prCandidate(prCombo{Typ: f.Typ, Net: f.Net, TT: tt, Proto: "udp", Comp: f.Comp}, f.Addr, f.Port, 0)
 		if err != nil {
 			panic(err)
